@@ -14,6 +14,7 @@
 World *W = nullptr;
 #include <cstdarg>
 void World::dbg(const char *fmt, ...) { if (!debug) return; va_list ap; va_start(ap, fmt); fprintf(stderr, "[%llu] ", (unsigned long long)now); vfprintf(stderr, fmt, ap); fputc('\n', stderr); va_end(ap); }
+extern "C" size_t cjet_get_alloc_size(void) __attribute__((weak));
 uint64_t world_vnow() { return W ? W->now : 0; }
 
 // ------------------------------------------------------------------ decoders
@@ -366,7 +367,7 @@ long World::on_read(KFd &k, void *buf, size_t n) {
 		if (in.t == Input::WSFRAME) in.wscls = classify_ws(cl, in.wf);
 		const std::string &txt = in.t == Input::MSG ? in.text : in.wf.payload;
 		bool is_text = in.t == Input::MSG || (in.t == Input::WSFRAME && in.wscls == W_TEXT);
-		if (mode == "exact" && is_text && !txt.empty() && txt[0] == '[' && json_parse(txt, j) && j.t == JV::Arr) {
+		if (mode == "exact" && is_text && !txt.empty() && txt[0] == '[' && json_parse(txt, j) && j.t == JV::Arr && !jv_has_nul(j)) {
 			if (j.a.size() >= 3) probe("batch_len>=3");
 			probe("batch_expanded");
 			for (auto &m : j.a) {
@@ -516,12 +517,14 @@ void World::on_timer_create_failed() {
 }
 
 void World::on_log(int pri, const std::string &line) {
-	(void)pri;
 	if (logs.size() < 200) logs.push_back(line);
 	dbg("log: %s", line.c_str());
 	trace.tag("log");
 	// the daemon's own heap cap refused an allocation: the same situation as an injected failure, reached by ordinary client activity
-	if (started && !done && line.find("Maximum allowed heap size exceeded") != std::string::npos) { probe("fault:heap_cap_refusal"); on_alloc_fail(0); }
+	// (recognised by its wording, or - so that a reworded message changes nothing - by any warning/error logged while the accounted heap is in the upper half of a
+	// small configured cap: taking a log line for a refusal that is none only makes the oracles more lenient for the rest of the run, never stricter)
+	bool near_cap = g_variant.heap_kb > 0 && g_variant.heap_kb <= 1024 && cjet_get_alloc_size && (long)cjet_get_alloc_size() * 2 >= (long)g_variant.heap_kb * 1024 && (pri & 7) <= 4;
+	if (started && !done && (line.find("Maximum allowed heap size exceeded") != std::string::npos || near_cap)) { probe("fault:heap_cap_refusal"); on_alloc_fail(0); }
 	scan_secret("log line", line.data(), line.size());
 }
 
